@@ -386,3 +386,41 @@ func firstDiff(a, b string) int {
 	}
 	return len(b)
 }
+
+// FuzzFormat is the native coverage-guided leg of C13 (thorough tier): float64 bits, verb, precision, flags and
+// width decoded from the fuzzer's arguments, judged by the same two oracles (strconv/fmt and the reference formatter).
+func FuzzFormat(f *testing.F) {
+	for _, v := range []float64{0, 1, -1.5, 0.0087890625, 0.6, 999.9, 9.96, 1e21, 1e-7, 123456789.125, math.MaxFloat64, 5e-324} {
+		for _, verb := range []byte("eEfgGv") {
+			f.Add(math.Float64bits(v), verb, int8(-1), uint8(0), uint16(0), uint8(0))
+			f.Add(math.Float64bits(v), verb, int8(2), uint8(3), uint16(12), uint8(4))
+		}
+	}
+	f.Fuzz(func(t *testing.T, bits uint64, verb byte, prec int8, flags uint8, width uint16, mode uint8) {
+		fl := math.Float64frombits(bits)
+		if math.IsNaN(fl) {
+			return
+		}
+		verbs := "eEfgGpbv"
+		c := C13Case{Kind: "f64", Bits: bits, X: float64Spec(fl), Verb: string(verbs[int(verb)%len(verbs)]), Prec: -1, Width: int(width % 200)}
+		if prec >= 0 {
+			c.Prec, c.HasPrec = int(prec)%60, true
+		}
+		for i, ch := range "+ 0-" {
+			if flags&(1<<uint(i)) != 0 {
+				c.Flags += string(ch)
+			}
+		}
+		if fl != 0 && !math.IsInf(fl, 0) && mode%7 != 0 {
+			// the reference-formatter oracle under any mode
+			c.Kind = "ref"
+			c.X.M = mode % 6
+		}
+		if (c.Verb == "p" || c.Verb == "b" || c.Verb == "v") && c.Kind == "f64" {
+			c.Kind = "ref"
+		}
+		if fail := propC13.SafeCheck(c, &h.Obs{}); fail != nil {
+			h.FuzzFail(t, "C13", fail, c)
+		}
+	})
+}
